@@ -680,5 +680,43 @@ def rfwd_forwarding(chk: Check) -> None:
     shared.forwarding_rule(chk, "C07.FWD", ('filters.py:', 'schemas.py:BaseSchema.include', 'schemas.py:BaseSchema.exclude', 'pytest/lazy.py:'), "filter keywords", 6)
 
 
+def r8_matcher_siblings(chk: Check) -> None:
+    chk.rule("C07.R8", "SIBLINGS-AGREE(the three attribute matchers): by_value / by_value_list / by_regex read the attribute through get_operation_attribute, answer False when the operation has no such attribute, match a LIST attribute (tags) when ANY entry matches, and differ only in the element test (`==` / `in expected` / `regex.search`); the method is compared in one case on both sides (attribute upper-cased, expected upper-cased, regex IGNORECASE for `method` only); a filter matches when ALL its matchers match", floor=8)
+    P = chk.project
+    SHAPE = {"by_value": ("== {x}", "!= {x}"), "by_value_list": ("in {x}", "not in {x}"), "by_regex": ("{x}.search(", "not {x}.search(")}
+    for name, (pos_t, neg_t) in SHAPE.items():
+        fn = P.func(f"filters.py:{name}")
+        ps_ = params_of(fn.node)
+        if len(ps_) < 3:
+            chk.undecided("C07.R8", fn, f"{name}: signature (ctx, attribute, <expected>)", "unexpected signature", fn.loc())
+            continue
+        elem, neg = pos_t.format(x=ps_[2]), neg_t.format(x=ps_[2])
+        body = unparse(fn.node, 4000)
+        chk.decide(True if f"get_operation_attribute({ps_[0]}.operation, {ps_[1]})" in body else None, "C07.R8", fn, f"{name}: reads the attribute of ctx.operation", "attribute access not recognised", fn.loc())
+        none_false = any(isinstance(i, ast.If) and " is None" in unparse(i.test) and any(isinstance(r, ast.Return) and isinstance(r.value, ast.Constant) and r.value.value is False for r in i.body) for i in walk_body(fn.node))
+        none_true = any(isinstance(i, ast.If) and " is None" in unparse(i.test) and any(isinstance(r, ast.Return) and isinstance(r.value, ast.Constant) and r.value.value is True for r in i.body) for i in walk_body(fn.node))
+        chk.decide(True if none_false else (False if none_true else None), "C07.R8", fn, f"{name}: an operation without the attribute does not match", "an operation WITHOUT the attribute (no operationId, no tags) matches the filter: `--include-tag x` selects untagged operations / `--exclude-operation-id y` drops operations without an id", fn.loc())
+        lists = [i for i in walk_body(fn.node) if isinstance(i, ast.If) and "isinstance" in unparse(i.test) and "list" in unparse(i.test)]
+        if not lists:
+            chk.undecided("C07.R8", fn, f"{name}: list attribute matched by any entry", "list arm not found", fn.loc())
+        else:
+            t = " ".join(unparse(x, 300) for x in lists[0].body)
+            chk.decide(True if "any(" in t else (False if "all(" in t else None), "C07.R8", fn, f"{name}: list attribute matched by any entry", "a list attribute (tags) matches only if EVERY entry matches: an operation tagged [users, admin] is not selected by `--include-tag users`", fn.loc(lists[0]))
+        rets = " ".join(unparse(r, 300) for r in simple_return_expr(fn))
+        chk.decide(True if (elem in rets and neg not in rets and f"not bool({elem}" not in rets) else (False if neg in rets else None), "C07.R8", fn, f"{name}: element test `{elem.strip('(')}`", "the element test is negated: the filter selects exactly the operations it should reject", fn.loc())
+    fr = P.func("filters.py:Matcher.for_regex")
+    g = [i for i in walk_body(fr.node) if isinstance(i, ast.If) and unparse(i.test) == "attribute == 'method'"]
+    ok = bool(g) and any("re.IGNORECASE" in unparse(x) for x in g[0].body) and not any("re.IGNORECASE" in unparse(x) for x in g[0].orelse)
+    chk.decide(True if ok else None, "C07.R8", fr, "regex is case-insensitive for `method` only", "flag selection not recognised", fr.loc())
+    ga = P.func("filters.py:get_operation_attribute")
+    up = [i for i in walk_body(ga.node) if isinstance(i, ast.If) and unparse(i.test) == "attribute == 'method'" and any(".upper()" in unparse(x) for x in i.body)]
+    chk.decide(True if up else None, "C07.R8", ga, "the operation's method is upper-cased before comparison", "normalisation not recognised", ga.loc())
+    nm = P.func("filters.py:_normalize_method")
+    chk.decide(True if all(".upper()" in unparse(r) for r in simple_return_expr(nm)) and simple_return_expr(nm) else None, "C07.R8", nm, "the expected method is upper-cased (string and list form)", "normalisation not recognised", nm.loc())
+    fm = P.func("filters.py:Filter.match")
+    rets = " ".join(unparse(r, 300) for r in simple_return_expr(fm))
+    chk.decide(True if rets.startswith("all(") else (False if rets.startswith("any(") else None), "C07.R8", fm, "a filter matches when all its matchers match", "`any`: a filter `method=GET && path_regex=^/users` selects every GET operation and everything under /users", fm.loc())
+
+
 def rules(tier: str) -> list:  # type: ignore[type-arg]
-    return [r1_enumerators, r1b_should_skip, r1c_filterset, r2_links, r3_entry_points, r4_statistic, r4b_filter_input, r4c_statistic_isolates_operations, r5_cli_plumbing, r6_filter_ownership, r7_documented_methods, rfwd_forwarding]
+    return [r1_enumerators, r1b_should_skip, r1c_filterset, r2_links, r3_entry_points, r4_statistic, r4b_filter_input, r4c_statistic_isolates_operations, r5_cli_plumbing, r6_filter_ownership, r7_documented_methods, r8_matcher_siblings, rfwd_forwarding]
